@@ -259,6 +259,10 @@ func (cip *CIP) DecodeFromBytes(data []byte, df gopacket.DecodeFeedback) error {
 		return ErrCIPDataTooSmall
 	}
 
+	// the class, instance, status, additional status and data are only
+	// present in some messages: do not keep those of an earlier decode
+	*cip = CIP{}
+
 	offset := 0
 	tmp := data[offset]
 	offset++
